@@ -14,16 +14,8 @@ def s(y: int) -> str:
 
 def r(y: int) -> str:
     return repr(y)
-
-def leak(kind: int, text: str) -> int:
-    x = int(text)            # a fresh int object
-    before = sys.getrefcount(x)
-    for _ in range(10):
-        if kind == 0:
-            s(x)
-        else:
-            r(x)
-    return sys.getrefcount(x) - before
 '''
-report(both(SRC, ["leak(0, '4611686018427387904')", "leak(1, '-4611686018427387905')", "leak(0, '4611686018427387903')"]),
+# the refcount is measured by the (interpreted) probe around ten calls into the module under test
+M = "(lambda x, r0: ([{f}(x) for _ in range(10)], sys.getrefcount(x) - r0)[1])(*(lambda x: (x, sys.getrefcount(x)))(int('{v}')))"
+report(both(SRC, [M.format(f="s", v="4611686018427387904"), M.format(f="r", v="-4611686018427387905"), M.format(f="s", v="4611686018427387903")]),
        lambda a, b: a[:2] != b[:2])
